@@ -1,7 +1,7 @@
 (* C05 — Result models are as strict as the schema.  Property theorems only. *)
 From Coq Require Import List String Ascii Bool ZArith.
 From AC Require Import Base.Strs Base.Sexp Base.Json Gql.Schema Gql.Exec Py.Ann Py.Pydantic
-     Model.Names Model.Results Proofs.ResultsP Proofs.ResultsRunP Proofs.ResultsAbsP Proofs.ResultsObjP Proofs.ResultsStrictP.
+     Model.Names Model.Results Proofs.ResultsP Proofs.ResultsRunP Proofs.ResultsAbsP Proofs.ResultsObjP Proofs.ResultsMixP Proofs.ResultsMixCovP Proofs.ResultsStrictP Proofs.ResultsMixStrictP.
 Import ListNotations.
 Local Open Scope string_scope.
 Local Open Scope list_scope.
@@ -52,6 +52,23 @@ Theorem C05_strict_partial_rejects :
     accepts n cls (schema_enums S) (AClass (pascal_s name)) j = false.
 Proof. exact op_strict_rejects. Qed.
 Print Assumptions C05_strict_partial_rejects.
+
+(* the same with fragment spreads used as MIXIN base classes (guards op_okM _ true + sels_strictM: the
+   mixin fragments are on the object type itself and again strict — in particular without __typename,
+   which a fragment class types as plain str; table guards as for C01_accepts_partial_mixins) *)
+Theorem C05_strict_partial_mixins :
+  forall C S frs F kind name sels root own pub' cls g gs j n,
+    root_type_name S kind = Ok root ->
+    op_parse F C S frs kind name [] sels = Ok (own, pub', false) ->
+    all_classes F C S frs (DOp kind name [] sels) = Ok cls ->
+    op_okM g true C S frs root sels = true -> sels_strictM gs C S frs false root sels = true ->
+    nodupb (map c_name cls) = true -> no_basemodel cls = true -> frag_no_skip F C S frs = true ->
+    n >= F + g + 2 ->
+    accepts n cls (schema_enums S) (AClass (pascal_s name)) j = true ->
+    covers n cls (AClass (pascal_s name)) j = true ->
+    exists fc0, forall fc, fc >= fc0 -> conf_op_gen lax_leaf false fc S frs root sels j = true.
+Proof. exact op_strict_mix. Qed.
+Print Assumptions C05_strict_partial_mixins.
 
 (* at the level of one generated class, any depth below it *)
 Theorem C05_object_strict :
@@ -210,5 +227,40 @@ Proof.
   split; [reflexivity|].
   split; [vm_compute; reflexivity|].      (* instantiates own, pub' *)
   split; [vm_compute; reflexivity|].      (* instantiates cls *)
+  vm_compute. repeat split.
+Qed.
+
+(* ---- non-vacuity of C05_strict_partial_mixins: a mixin that spreads another mixin with a nested object;
+        a corruption inside the inherited part is rejected ---- *)
+Definition frsN : list fragdef :=
+  [{| fr_name := "UserBits"; fr_on := "User"; fr_mixins := [];
+      fr_sel := [SField None "fullName" true [] None; SSpread "UserMore" false] |};
+   {| fr_name := "UserMore"; fr_on := "User"; fr_mixins := [];
+      fr_sel := [SField (Some "homeAddress") "address" false [] (Some [SField None "city" false [] None])] |}].
+Definition selsN : list sel :=
+  [SField None "users" false []
+     (Some [SField None "__typename" false [] None; SField None "id" false [] None;
+            SSpread "UserBits" false; SField None "role" false [] None])].
+Definition userN (addr : json) : json :=
+  JObj [("users", JArr [JObj [("__typename", JStr "User"); ("id", JStr "1"); ("fullName", JStr "A");
+                              ("homeAddress", addr); ("role", JStr "ADMIN")]])].
+
+Example C05_mixins_hypotheses_satisfiable :
+  exists own pub' cls,
+    root_type_name SY "query" = Ok "Query" /\
+    op_parse 10 C0 SY frsN "query" "GetUsers" [] selsN = Ok (own, pub', false) /\
+    all_classes 10 C0 SY frsN (DOp "query" "GetUsers" [] selsN) = Ok cls /\
+    op_okM 10 true C0 SY frsN "Query" selsN = true /\ sels_strictM 10 C0 SY frsN false "Query" selsN = true /\
+    nodupb (map c_name cls) = true /\ no_basemodel cls = true /\ frag_no_skip 10 C0 SY frsN = true /\
+    accepts 22 cls (schema_enums SY) (AClass (pascal_s "GetUsers")) (userN (JObj [("city", JStr "X")])) = true /\
+    covers 22 cls (AClass (pascal_s "GetUsers")) (userN (JObj [("city", JStr "X")])) = true /\
+    conf_op 10 SY frsN "Query" selsN (userN (JObj [("city", JStr "X")])) = true /\
+    accepts 22 cls (schema_enums SY) (AClass (pascal_s "GetUsers")) (userN (JObj [("city", JNull)])) = false /\
+    accepts 22 cls (schema_enums SY) (AClass (pascal_s "GetUsers")) (userN (JObj [])) = false.
+Proof.
+  do 3 eexists.
+  split; [reflexivity|].
+  split; [vm_compute; reflexivity|].
+  split; [vm_compute; reflexivity|].
   vm_compute. repeat split.
 Qed.
